@@ -117,7 +117,8 @@ void harness (void)
           bad = t_wellformed (r.root, !c.one);
           sx_observe ("bad", bad);
           sx_assert (bad == 0, "C07: tree well-formed");
-          if (bad == 0 && !ok && p_nerr >= 1 && p_nerr <= 3)
+          if (bad == 0 && !ok && p_nerr >= 1 && p_nerr <= 3 && p_n > (int) sx_param ("repair_maxlen", 8)) sx_reach ("C07: input longer than repair_maxlen (repair enumeration skipped)");
+          if (bad == 0 && !ok && p_nerr >= 1 && p_nerr <= 3 && p_n <= (int) sx_param ("repair_maxlen", 8))
             {
               int sane = 1;
               total = 0;
